@@ -121,6 +121,9 @@ class FileResolver:
             # Yield files matching include patterns (applying gitignore + tool ignore)
             for filename in filenames:
                 filepath = current / filename
+                if filepath.is_symlink():
+                    # Traversal does not follow symbolic links, to files no more than to directories
+                    continue
                 if not self._include_spec.match_file(filename):
                     continue
                 if self._exceeds_max_size(filepath):
@@ -173,10 +176,23 @@ class FileResolver:
                 glob_part = str(Path(*parts[i:]))
                 break
 
+        tool_ignore = self._get_tool_ignore(root)
         for path in root.glob(glob_part):
-            if path.is_file() and self._include_spec.match_file(path.name):
-                if not self._exceeds_max_size(path):
-                    yield path
+            if path.is_symlink() or not path.is_file():
+                continue
+            if not self._include_spec.match_file(path.name):
+                continue
+            # Same filters as directory traversal: excluded directories and the tool ignore file
+            rel_dirs = path.relative_to(root).parts[:-1]
+            if any(self._exclude_spec.match_file(part + "/") for part in rel_dirs):
+                continue
+            if tool_ignore and (
+                tool_ignore.match_file(path.name)
+                or any(tool_ignore.match_file(part + "/") for part in rel_dirs)
+            ):
+                continue
+            if not self._exceeds_max_size(path):
+                yield path
 
     def _exceeds_max_size(self, path: Path) -> bool:
         """Check if a file exceeds the configured max size. 0 = no limit."""
